@@ -130,7 +130,7 @@ def gen_data(rng, vs, n):
 
 def evaluate_and_explain(text, vs, data, n):
     def go():
-        spec = impl.make_spec("offd", text, vs)
+        spec = impl.make_spec("offd", text, vs, single=True)
         spec.parse()
         ds = {"time": list(range(n))}
         ds.update({v: list(data[v]) for v in vs})
@@ -341,7 +341,7 @@ def gen_good_intervals(rng, n):
 def impl_explain_at(text, vs, data, n, ivs, flag):
     def go():
         from rtamt.explanation.ltl.discrete_time.explainer import Explanations
-        spec = impl.make_spec("offd", text, vs)
+        spec = impl.make_spec("offd", text, vs, single=True)
         spec.parse()
         ds = {"time": list(range(n))}
         ds.update({v: list(data[v]) for v in vs})
